@@ -136,14 +136,18 @@ pub fn gen_bytes(rng: &mut Rng) -> Vec<u8> {
 }
 
 pub fn run_one(rep: &mut Report, rng: &mut Rng, bytes: &[u8], to_coq: bool) {
-    let mut buf = bytes.to_vec();
+    static SHIFT: std::sync::atomic::AtomicUsize = std::sync::atomic::AtomicUsize::new(0);
+    let shift = SHIFT.fetch_add(1, std::sync::atomic::Ordering::Relaxed) % 8;
+    let mut shifted = emit::Shifted::new(bytes, shift);
+    let buf: &mut [u8] = shifted.bytes_mut();
+    rep.count(&format!("address-offset:{}", shift));
     let want = oracle_parse(bytes);
     let mut items: Vec<String> = Vec::new();
     let mut nontrivial = false;
     // open through the three views
     let mut opened = Vec::new();
     for view in [View::Mut, View::Borrowed, View::Owned] {
-        let r = open_view(&mut buf, view);
+        let r = open_view(buf, view);
         if r.is_panic() {
             rep.violate("open-panic", "opening arbitrary bytes as TLV state panicked",
                 serde_json::json!({"bytes": emit::hex(bytes), "view": format!("{:?}", view)}).to_string());
@@ -158,7 +162,7 @@ pub fn run_one(rep: &mut Report, rng: &mut Rng, bytes: &[u8], to_coq: bool) {
         }
     }
     rep.count(if want.is_some() { "parse:accepted" } else { "parse:rejected" });
-    if buf != bytes {
+    if &buf[..] != bytes {
         rep.violate("open-mutates", "opening changed the bytes", serde_json::json!({"bytes": emit::hex(bytes)}).to_string());
     }
     if let Some(es) = &want {
@@ -167,7 +171,7 @@ pub fn run_one(rep: &mut Report, rng: &mut Rng, bytes: &[u8], to_coq: bool) {
             rep.count("parse:accepted-nonempty");
         }
         let view = *rng.pick(&[View::Mut, View::Borrowed, View::Owned]);
-        let ds = discs_view(&mut buf, view);
+        let ds = discs_view(buf, view);
         let wd: Vec<[u8; 8]> = es.iter().map(|e| e.0).collect();
         if ds != Res::Ok(wd) {
             rep.violate("discs-mismatch", "listed types are not exactly the entries in order",
@@ -181,7 +185,7 @@ pub fn run_one(rep: &mut Report, rng: &mut Rng, bytes: &[u8], to_coq: bool) {
             let mine: Vec<&([u8; 8], usize, usize)> = es.iter().filter(|e| e.0 == TAGS[t]).collect();
             for r in 0..=mine.len() + 1 {
                 let view = *rng.pick(&[View::Mut, View::Borrowed, View::Owned]);
-                let g = get_bytes_view(&mut buf, t, r, view);
+                let g = get_bytes_view(buf, t, r, view);
                 let ok = match (mine.get(r), &g) {
                     (Some(e), Res::Ok((off, v))) => *off == e.1 && v[..] == bytes[e.1..e.1 + e.2],
                     (None, Res::Err(_)) => true,
@@ -198,7 +202,7 @@ pub fn run_one(rep: &mut Report, rng: &mut Rng, bytes: &[u8], to_coq: bool) {
                 let cur = mine.get(r).map(|e| e.2).unwrap_or(1);
                 for size in TYPED_SIZES {
                     if size == cur || rng.chance(1, 6) {
-                        let gt = get_typed_view(&mut buf, t, r, size, view);
+                        let gt = get_typed_view(buf, t, r, size, view);
                         let ok = match (mine.get(r), &gt) {
                             (Some(e), Res::Ok((off, v))) => e.2 == size && *off == e.1 && v[..] == bytes[e.1..e.1 + e.2],
                             (Some(e), Res::Err(_)) => e.2 != size,
